@@ -18,9 +18,17 @@ MANIFEST = dict(
          'the real file system and an independent Python pretty-printer.',
     note='Trusted: Lean kernel, translator, correspondence generators, str.format / textwrap / os.path / os.makedirs / '
          'shutil.copy as external calls (re-implemented in the model and compared on every run). File-system effects of '
-         'the built-in backends are observed (every backend x 3 specs x option sets), not proved; the file-system model '
+         'the built-in backends are observed (every backend x 4 hand-written spec families + generated specs x option '
+         'sets, at the Compiler level and through stone.cli.main with --output-manifest / --expected-output-manifest / '
+         '--clean-build), not proved; the file-system model '
          'abstracts directory creation and does not model symlinks. Placeholder names are restricted to identifiers. '
-         'manifest_eq_real assumes copy_to_path destinations are pre-existing directories (as in all built-in backends).',
+         'manifest_eq_real assumes copy_to_path destinations are pre-existing directories (as in all built-in backends). '
+         'Observed by testing only (no model): emit_wrapped_text with break_long_words / break_on_hyphens set (against '
+         'textwrap.fill and a word-level oracle; where a prefix leaves no room textwrap itself does not return and the '
+         'case is left out), filter_out_none_valued_keys (against its docstring), the command-line layer (exit status of '
+         'the manifest comparison, printed manifest). Not judged: a manifest run with --clean-build removes the existing '
+         'output folder like a real run does; SwiftBaseBackend creates a missing output folder before it refuses a file '
+         'name.',
     technique='Lean 4 proof + translator + differential correspondence + direct oracles',
     design='5 C18')
 
@@ -37,7 +45,8 @@ def run(ck):
     be.run_corpus(ck)
     timings = {}
     for name, suite in [('format', be.suite_format), ('path', be.suite_path), ('emit', be.suite_emit),
-                        ('wrap', be.suite_wrap), ('manifest_api', be.suite_manifest_api),
+                        ('wrap', be.suite_wrap), ('filter_none', be.suite_filter_none),
+                        ('manifest_api', be.suite_manifest_api), ('manifest_cli', be.suite_manifest_cli),
                         ('manifest_backends', be.suite_manifest_backends)]:
         t0 = time.time()
         suite(ck)
